@@ -24,6 +24,7 @@ from optuna.storages.journal._storage import JournalOperation, JournalStorageRep
 
 from verif import core, fleet
 from verif import storage_k as K
+from verif.props import c06_redis
 
 RULE = (
     "2-4 JournalStorage workers on one log (file backend with either lock, or fakeredis) execute a seeded interleaving "
@@ -314,7 +315,7 @@ def search(chk: core.Check) -> None:
 def main(chk: core.Check) -> int:
     chk.rule = RULE
     if not getattr(chk, "no_prove", False):
-        chk.prove()
+        chk.prove(["OptunaVerif.Props.C06", "OptunaVerif.Props.C06Redis"])
     check_opcodes(chk)
     quick = chk.tier == "quick"
     try:
@@ -323,6 +324,7 @@ def main(chk: core.Check) -> int:
         explore(chk, cfgs, 150 if quick else 2500, 60 if quick else 200)
     except core.DriverBroken as e:
         chk.broke("correspondence", {"driver": str(e)[:800]})
+    c06_redis.correspond(chk, chk.tier)  # the Redis backend command by command against Model/JournalRedis.lean
     chk.assumptions += ["pickle round trip of JournalStorageReplayResult is faithful (exercised, not proved)",
                         "fakeredis stands for Redis", "the model consumes the records as re-encoded by rec_to_driver (floats -> exact rationals)"]
     return chk.finish(search=search)
@@ -330,6 +332,8 @@ def main(chk: core.Check) -> int:
 
 def replay(chk: core.Check, path: str) -> int:
     w = json.load(open(path))["witness"]
+    if w.get("part") == "redis":
+        return c06_redis.replay_case(chk, w)
     core.ensure_driver()
     drv = core.Driver("journal")
     try:
